@@ -6,9 +6,13 @@
 //
 // Case line (blank separated, strings lower-case hex, "-" = empty):
 //
-//	wire <fmt> <ssl> <keepalive> <instances> <tgt> <preload> <resp> <ncfg> {k v}*ncfg <nitems> {item}*nitems
+//	wire <fmt> <ssl> <keepalive> <instances> <tgt> <preload> <resp> <pools> <late> <ncfg> {k v}*ncfg <nitems> {item}*nitems
 //	  fmt  = uri | uripost | jsonline | raw         tgt = ip (127.0.0.1:PORT) | name (localhost:PORT)
 //	  preload = provider option `preload` 0|1        resp = <status>:<bytes> what the target answers to every request
+//	  pools = number of pools in the one engine run, each with its own target server on another port of the same
+//	          host (127.0.0.1 / localhost) and the same ammo;  late = 1: the targets are down while the configuration
+//	          is decoded (the gun factories' PreResolveTargetAddr fails, the DNS-caching dialer stays on) and are
+//	          started before Engine.Run
 //	  item = H k v                                   an in-file "[k: v]" line (uri, uripost only)
 //	       | E method uri scheme urlhost tag body nh {k v}*nh
 //	         scheme = - (request-URI only) | h | s (absolute URL http://urlhost<uri> / https://…)
@@ -17,7 +21,7 @@
 // Observation (one line):
 //
 //	run=<ok|err> conn=<0|1> n=<records> {| <srv> <tls> method uri host body nh {k nv {v}*nv}*nh}*   (records sorted)
-//	  srv  = T (arrived at the gun's target) | D (arrived at the decoy)
+//	  srv  = T<k> (arrived at the target of pool k) | D (arrived at the decoy)
 //	  conn = keep-alive on: connections seen by the target <= instances; off: connections == requests
 //
 // Header canonicalisation rule (stated in the evidence): headers are compared as a map sorted by
@@ -76,6 +80,8 @@ type wcase struct {
 	ka      bool
 	inst    int
 	tgt     string
+	pools   int
+	late    bool
 	preload bool
 	rstatus int
 	rsize   int
@@ -122,6 +128,8 @@ func parseCase(line string) (*wcase, error) {
 		rs, rz, _ := strings.Cut(next(), ":")
 		c.rstatus, _ = strconv.Atoi(rs)
 		c.rsize, _ = strconv.Atoi(rz)
+		c.pools = num()
+		c.late = next() == "1"
 		for n := num(); n > 0; n-- {
 			k := str()
 			v := str()
@@ -263,13 +271,13 @@ func handler(srv string) http.Handler {
 		if rec != nil {
 			rec.mu.Lock()
 			rec.recs = append(rec.recs, record{srv: srv, tls: r.TLS != nil, method: r.Method, uri: r.RequestURI, host: r.Host, hdr: r.Header.Clone(), body: body})
-			if srv == "T" {
-				rec.conns[r.RemoteAddr] = true
+			if strings.HasPrefix(srv, "T") {
+				rec.conns[srv+" "+r.RemoteAddr] = true // per server: a source port may be reused towards another port
 			}
 			rec.mu.Unlock()
 		}
 		status, size := 200, 2
-		if rec != nil && srv == "T" {
+		if rec != nil && strings.HasPrefix(srv, "T") {
 			status, size = rec.status, rec.size
 		}
 		w.Header().Set("Content-Type", "text/plain")
@@ -330,28 +338,21 @@ func setup() {
 	decoySrv = httptest.NewServer(handler("D"))
 }
 
+// runCase: a late-start case whose reserved port was taken by another process in between is repeated on fresh ports.
 func runCase(line string) string {
+	out := runCaseOnce(line)
+	for i := 0; i < 5 && out == "run=harness-port-lost"; i++ {
+		out = runCaseOnce(line)
+	}
+	return out
+}
+
+func runCaseOnce(line string) string {
 	c, err := parseCase(line)
 	if err != nil {
 		return "badcase"
 	}
 	rec := &recorder{conns: map[string]bool{}, status: c.rstatus, size: c.rsize}
-	srv := httptest.NewUnstartedServer(handler("T"))
-	srv.Config.ConnState = func(cn net.Conn, st http.ConnState) {
-		if st == http.StateNew {
-			rec.mu.Lock()
-			rec.newc++
-			rec.mu.Unlock()
-		}
-	}
-	srv.Config.ErrorLog = log.New(io.Discard, "", 0)
-	if c.ssl {
-		srv.TLS = &tls.Config{NextProtos: []string{"http/1.1"}}
-		srv.StartTLS()
-	} else {
-		srv.Start()
-	}
-	defer srv.Close()
 	curMu.Lock()
 	cur = rec
 	curMu.Unlock()
@@ -360,18 +361,11 @@ func runCase(line string) string {
 		cur = nil
 		curMu.Unlock()
 	}()
-
 	decoyAddr := decoySrv.Listener.Addr().String()
-	_, port, _ := net.SplitHostPort(srv.Listener.Addr().String())
-	target := "127.0.0.1:" + port
-	if c.tgt == "name" {
-		target = "localhost:" + port
-	}
 	caseNo++
 	path := fmt.Sprintf("/ammo-%d", caseNo)
 	_ = afero.WriteFile(fs, path, renderFile(c, decoyAddr), 0o644)
 	defer fs.Remove(path)
-
 	nEntries := 0
 	for _, it := range c.items {
 		if !it.isHdr {
@@ -383,28 +377,104 @@ func runCase(line string) string {
 	for _, h := range c.cfg {
 		hdrs = append(hdrs, fmt.Sprintf("[%s: %s]", h.k, h.v))
 	}
-	ammo := map[string]any{"type": typ, "file": path, "limit": nEntries, "preload": c.preload}
-	if len(hdrs) > 0 {
-		ammo["headers"] = hdrs
+
+	// one target server per pool, all on 127.0.0.1 (host-name targets: different ports of "localhost")
+	servers := make([]*httptest.Server, c.pools)
+	ports := make([]string, c.pools)
+	for k := 0; k < c.pools; k++ {
+		srv := httptest.NewUnstartedServer(handler(fmt.Sprintf("T%d", k)))
+		srv.Config.ConnState = func(cn net.Conn, st http.ConnState) {
+			if st == http.StateNew {
+				rec.mu.Lock()
+				rec.newc++
+				rec.mu.Unlock()
+			}
+		}
+		srv.Config.ErrorLog = log.New(io.Discard, "", 0)
+		if c.ssl {
+			srv.TLS = &tls.Config{NextProtos: []string{"http/1.1"}}
+		}
+		_, ports[k], _ = net.SplitHostPort(srv.Listener.Addr().String())
+		servers[k] = srv
 	}
-	pool := map[string]any{
-		"id":     "p",
-		"ammo":   ammo,
-		"result": map[string]any{"type": "discard"},
-		"gun": map[string]any{
-			"type": "http", "target": target, "ssl": c.ssl,
-			"disable-keep-alives": !c.ka,
-		},
-		"rps-per-instance": false,
-		"rps":              []any{map[string]any{"type": "once", "times": nEntries}},
-		"startup":          []any{map[string]any{"type": "once", "times": c.inst}},
+	if c.late {
+		// the targets are DOWN while the configuration is read (pre-resolve fails) and come up before the run;
+		// all ports are reserved first so that no two pools get the same one
+		for _, srv := range servers {
+			_ = srv.Listener.Close()
+		}
 	}
+	start := func(k int) bool {
+		srv := servers[k]
+		if c.late {
+			var l net.Listener
+			var err error
+			for i := 0; i < 50; i++ {
+				if l, err = net.Listen("tcp", "127.0.0.1:"+ports[k]); err == nil {
+					break
+				}
+				time.Sleep(20 * time.Millisecond)
+			}
+			if err != nil {
+				return false
+			}
+			srv.Listener = l
+		}
+		if c.ssl {
+			srv.StartTLS()
+		} else {
+			srv.Start()
+		}
+		return true
+	}
+	if !c.late {
+		for k := range servers {
+			start(k)
+		}
+	}
+	var pools []any
+	for k := 0; k < c.pools; k++ {
+		target := "127.0.0.1:" + ports[k]
+		if c.tgt == "name" {
+			target = "localhost:" + ports[k]
+		}
+		ammo := map[string]any{"type": typ, "file": path, "limit": nEntries, "preload": c.preload}
+		if len(hdrs) > 0 {
+			ammo["headers"] = hdrs
+		}
+		pools = append(pools, map[string]any{
+			"id":     fmt.Sprintf("p%d", k),
+			"ammo":   ammo,
+			"result": map[string]any{"type": "discard"},
+			"gun": map[string]any{
+				"type": "http", "target": target, "ssl": c.ssl,
+				"disable-keep-alives": !c.ka,
+			},
+			"rps-per-instance": false,
+			"rps":              []any{map[string]any{"type": "once", "times": nEntries}},
+			"startup":          []any{map[string]any{"type": "once", "times": c.inst}},
+		})
+	}
+	// the gun factories run here (PreResolveTargetAddr, dialer / DNS cache choice), exactly as components/phttp/import does
 	conf := cli.DefaultConfig()
-	if err := config.DecodeAndValidate(map[string]any{"pools": []any{pool}}, conf); err != nil {
+	if err := config.DecodeAndValidate(map[string]any{"pools": pools}, conf); err != nil {
 		return "run=conferr:" + vh.HexS(err.Error())
 	}
-	ag := &aggr{}
-	conf.Engine.Pools[0].Aggregator = ag
+	if c.late {
+		for k := range servers {
+			if !start(k) {
+				return "run=harness-port-lost"
+			}
+		}
+	}
+	defer func() {
+		for _, srv := range servers {
+			srv.Close()
+		}
+	}()
+	for k := range conf.Engine.Pools {
+		conf.Engine.Pools[k].Aggregator = &aggr{}
+	}
 	eng := engine.New(zap.NewNop(), metrics, conf.Engine)
 	ctx, cancel := context.WithTimeout(context.Background(), 20*time.Second)
 	runErr := eng.Run(ctx)
@@ -416,7 +486,7 @@ func runCase(line string) string {
 	var lines []string
 	nT := 0
 	for _, r := range rec.recs {
-		if r.srv == "T" {
+		if strings.HasPrefix(r.srv, "T") {
 			nT++
 		}
 		var keys []string
@@ -441,13 +511,14 @@ func runCase(line string) string {
 	sort.Strings(lines)
 	// connections: rec.conns = connections that carried at least one request; rec.newc = every accepted
 	// connection, which for a host-name target includes the one reachability probe of PreResolveTargetAddr.
+	// (one per pool; none when the target was down at configuration time)
 	probe := 0
-	if c.tgt == "name" {
-		probe = 1
+	if c.tgt == "name" && !c.late {
+		probe = c.pools
 	}
 	connOK := false
 	if c.ka {
-		connOK = len(rec.conns) <= c.inst && rec.newc <= c.inst+probe
+		connOK = len(rec.conns) <= c.inst*c.pools && rec.newc <= c.inst*c.pools+probe
 	} else {
 		connOK = len(rec.conns) == nT && rec.newc == nT+probe
 	}
